@@ -72,7 +72,8 @@ int __wrap_pthread_join(pthread_t th, void **ret)
 }
 
 static char g_sig[200];
-#define FAIL(rule, ...) do { snprintf(g_sig, sizeof g_sig, "c19:%s", rule); vx_violation(g_sig, __VA_ARGS__); } while (0)
+/* in the free-running pass (no scheduler) a finding is schedule dependent and cannot be replayed: prefix "free:" */
+#define FAIL(rule, ...) do { snprintf(g_sig, sizeof g_sig, "%sc19:%s", scheduled ? "" : "free:", rule); vx_violation(g_sig, __VA_ARGS__); } while (0)
 
 /* ---- trial content */
 struct model {
@@ -160,6 +161,11 @@ static void trial_func(void *vp)
         uint64_t param;
         memcpy(&param, ep, 8);
         const uint64_t seed = 0x5EED0000ull + (param & 0xFFFF);
+        /* what a trial can see of the library's thread-local state before it has set anything up
+         * itself: this must not depend on what ran earlier on this worker thread */
+        const double clock_at_entry = cmb_time();
+        const uint64_t entry_obs = vx_hash_bytes(41, &clock_at_entry, sizeof clock_at_entry)
+                                   ^ (uint64_t)(cmb_process_current() != NULL);
         uint64_t result;
         switch (idx % 4) {
         case 0:
@@ -198,6 +204,7 @@ static void trial_func(void *vp)
             }
             break;
         }
+        result = vx_mix(result, entry_obs);
         result |= 1ull << 63;
         if (SZ >= 16) {
             memcpy(ep + 8, &result, 8);
